@@ -8,6 +8,7 @@ Spec:  `Reach g a b` — `a` is reachable from `b` through parent links (or `a =
 import WrglModel.Model.Queue
 import WrglModel.Spec.Graph
 import WrglModel.Lemmas.C11
+import WrglModel.Lemmas.C11Seek
 namespace Wrgl
 
 /-! ## Ancestor test (full strength, arbitrary timestamps) -/
@@ -26,6 +27,21 @@ theorem C11_walk_each_once (g : Graph) (hwf : g.wf = true) (b : Nat)
   walk_correct g hwf b hb
 
 /-! ## Merge base -/
+
+/-- Two inputs (the only case `wrgl merge` of two branches, fetch and pull use): the base is an
+    ancestor-or-self of both, is found whenever a common ancestor exists, and "not found" is
+    reported only when none exists; no panic, no nil result, the stated fuel suffices. -/
+theorem C11_seek_common_two (g : Graph) (hwf : g.wf = true) (x y : Nat)
+    (hx : (g.get? x).isSome = true) (hy : (g.get? y).isSome = true) :
+    (∃ r, seekCommonAncestor g [x, y] = .ok (some r) ∧ Reach g r x ∧ Reach g r y) ∨
+    (seekCommonAncestor g [x, y] = .err "not-found" ∧ ¬ ∃ r, Reach g r x ∧ Reach g r y) :=
+  seek_two_common g hwf x y hx hy
+
+/-- The computable closure `reach` that the driver's oracle evaluates on implementation output is
+    the specification `Reach`. -/
+theorem C11_oracle_reach_sound (g : Graph) (hwf : g.wf = true) (a b : Nat)
+    (hb : (g.get? b).isSome = true) : reach g a b = true ↔ Reach g a b :=
+  reach_iff_Reach g hwf a b hb
 
 /-- full-strength statement 1: the base is an ancestor-or-self of every input. -/
 def C11_seek_common_full : Prop :=
